@@ -194,7 +194,7 @@ def _judge_call(batch, got, ref):
 # ---------------------------------------------------------------------------
 # histories
 # ---------------------------------------------------------------------------
-def _histories(rng, pool, parallel):
+def _histories(rng, pool, parallel, long=False):
     """pool: list of distinct (b, a); returns {shape: [ {queries:[[key,[b,a]]...], multi:bool} ... ]}"""
     n = min(5, len(pool))
     base = pool[:n]
@@ -223,6 +223,14 @@ def _histories(rng, pool, parallel):
     if n > 2:
         dup2 = [(5, base[1]), (4, base[1]), (3, base[2]), (2, base[1]), (1, base[0])]
         h["dup-texts-3"] = [(dup2, False)]
+    if long:
+        # many calls on one manager: the id pool / cached CNFs keep growing between calls
+        calls = []
+        for _ in range(12):
+            sub = rng.sample(pool, rng.randint(1, min(4, len(pool))))
+            keys = rng.sample(range(-5, 40), len(sub))
+            calls.append(([(k, p) for k, p in zip(keys, sub)], False))
+        h["long"] = calls + [(std, False)]
     if parallel:
         h["par-vs-seq"] = [(std, False), (std, True), (std, True), (std, False)]
         h["par-first"] = [(p1, True), (p1, False)]
@@ -286,7 +294,7 @@ def _base_id(sig, cond_texts):
 
 
 def _case(args):
-    sig, cond_texts, system, pm, weakly, pool, seed, parallel = args
+    sig, cond_texts, system, pm, weakly, pool, seed, parallel, long = args
     from inference.inference_manager import InferenceManager
     from oracle.gen import cond as mkcond
 
@@ -307,7 +315,7 @@ def _case(args):
     rng = random.Random(seed)
     ref = {}
     bid = _base_id(sig, cond_texts)
-    for shape, history in _histories(rng, pool, parallel).items():
+    for shape, history in _histories(rng, pool, parallel, long).items():
         found, evals, ref = _run_history(sig, conds, system, pm, weakly, history, ref)
         out["evaluations"] += evals
         answers = {ref[_txt(p)] for call in history for _, p in call["queries"]}
@@ -363,9 +371,10 @@ def run(tier, seed):
     thorough = tier == "thorough"
     from inference.consistency_sat import consistency
 
-    n_bases = 100 if thorough else 16
+    n_bases = 100 if thorough else 12
     par_every = 2 if thorough else 4
     cases = []
+    long_every = 1 if thorough else 3
     bases = [(BIRDS_SIG, dict(BIRDS), list(BIRDS_POOL), True)]
     skipped = 0
     weak_only = 0
@@ -380,19 +389,20 @@ def run(tier, seed):
                 continue
             weak_only += 1
         bases.append((sig, texts_of(conds), _pool_for(rng, sig, conds), len(bases) % par_every == 0))
-    for sig, ctexts, pool, par in bases:
+    for bi, (sig, ctexts, pool, par) in enumerate(bases):
         for weakly in (False, True):
             for system, pm in CONFIGS:
                 if system == "c-inference" and weakly:
                     continue
-                cases.append((sig, ctexts, system, pm, weakly, pool, rng.randrange(10**9), par))
+                cases.append((sig, ctexts, system, pm, weakly, pool, rng.randrange(10**9), par, bi % long_every == 0))
     order = list(range(len(cases)))
     random.Random(seed + 1).shuffle(order)  # spread the expensive (parallel) cases over the pool
-    res = merge(pmap(_case, [cases[i] for i in order], procs=min(12, os.cpu_count() or 4)))
+    res = merge(pmap(_case, [cases[i] for i in order]))
     res["scope"] = (
         f"birds base + {n_bases} seeded S3 bases (3-4 atoms, <=5 conditionals) x 7 operator/back-end pairs x strict/extended mode "
         f"(c-inference strict only); per case 9-10 sequential history shapes of 1-5 calls on one manager with batches of <=5 queries "
-        f"(repeat, permuted, re-keyed, interleaved sets, keys {ODD_KEYS}, random keys, alone-then-batch, duplicate texts) and, for the "
+        f"(repeat, permuted, re-keyed, interleaved sets, keys {ODD_KEYS}, random keys, alone-then-batch, duplicate texts), for every "
+        f"{long_every}. base a 13-call history of random sub-batches with random keys and, for the "
         f"birds base and every {par_every}th base, 4 shapes mixing multi_inference=True with sequential calls"
     )
     res["rule"] = (
